@@ -187,6 +187,49 @@ def cfgRnd : Rnd CKey Nat :=
   { cfg := cfgCfg, fold := fun k => (lowerBytes k.1, lowerBytes k.2),
     noRepl := fun k => k.1 = exportedServices, delBatch := 1, upsLimit := 1 }
 
+/-! ### stale batch reads (`FetchUpdated` answered by a primary server that lags behind the one
+    that answered the list request) and `ensureRemoteConsistent`
+
+    `ov` overrides what the batch read returns for some ids: an older stored version of the
+    object, or nothing. `cre` is the remote CreateIndex. The guard as coded for policies:
+    a returned object whose hash differs from the listed one and whose ModifyIndex is lower, or a
+    missing object that the list shows as just created (ModifyIndex = CreateIndex), fails the round
+    BEFORE any write. Tokens have no guard (`guard = false`); roles never batch-read. -/
+
+def fetched (ov : List (κ × Option (Item κ η))) (x : Item κ η) : Option (Item κ η) :=
+  match ov.find? (fun o => o.1 = x.id) with
+  | none => some x
+  | some o => o.2
+
+def guardBad (c : Cfg κ η) (ov : List (κ × Option (Item κ η))) (cre : κ → Nat) (x : Item κ η) : Bool :=
+  match fetched ov x with
+  | some f => !(c.same f.hash x.hash) && decide (f.mod < x.mod)
+  | none => x.mod == cre x.id
+
+def staleDetected (R : Rnd κ η) (guard : Bool) (ov : List (κ × Option (Item κ η))) (cre : κ → Nat)
+    (last ridx : Nat) (l r : List (Item κ η)) : Bool :=
+  guard && (roundUps R last ridx l r).any (guardBad R.cfg ov cre)
+
+/-- what the round upserts when the batch read is (partly) stale -/
+def roundUpsStale (R : Rnd κ η) (ov : List (κ × Option (Item κ η))) (last ridx : Nat)
+    (l r : List (Item κ η)) : List (Item κ η) :=
+  (roundUps R last ridx l r).filterMap (fetched ov)
+
+def roundOpsStale (R : Rnd κ η) (guard : Bool) (ov : List (κ × Option (Item κ η))) (cre : κ → Nat)
+    (last ridx : Nat) (l r : List (Item κ η)) : List (Op κ η) :=
+  if staleDetected R guard ov cre last ridx l r then []
+  else (batches R.delBatch (fun _ => 1) (roundDels R last ridx l r)).map Op.del ++
+       (batches R.upsLimit Item.size (roundUpsStale R ov last ridx l r)).map Op.ups
+
+def roundFinalStale (R : Rnd κ η) (guard : Bool) (ov : List (κ × Option (Item κ η))) (cre : κ → Nat)
+    (last ridx : Nat) (l r : List (Item κ η)) : List (Item κ η) :=
+  (roundOpsStale R guard ov cre last ridx l r).foldl (execOp R.fold) l
+
+/-- `none` = the round returned an error (the replicator retries with last = 0) -/
+def roundRetStale (R : Rnd κ η) (guard : Bool) (ov : List (κ × Option (Item κ η))) (cre : κ → Nat)
+    (last ridx : Nat) (l r : List (Item κ η)) : Option Nat :=
+  if staleDetected R guard ov cre last ridx l r then none else some ridx
+
 /-! ### the second unique index of ACL policies and roles: the name
 
     `aclPolicySetTxn` / `aclRoleSetTxn` reject an upsert whose (lower-cased) name is held by a row
